@@ -52,6 +52,12 @@ checks = {
  "C19": ("exploration", "6/C19",
          "Seeded simulation of credential lookup: generated Docker-style config documents (explicit host keys, http/https URL keys with paths, several URL keys for one host, path-like keys; username/password, base64 auth incl. colons, NUL padding, missing colon and garbage; identitytoken, registrytoken; credsStore; credHelpers) with scripted helper behaviours (credentials, token, not found, missing binary, other error) are decoded through the real LoadWithEnv on a temporary file 8 times per document. The map range in the decoder (which extends the map while iterating) is a seeded permutation incl. whether inserted keys are visited, and lookups are issued in seeded orders with repeats. Oracle: a reference precedence function written from the statement, and equality of every lookup across all iteration and lookup orders.",
          "deterministic simulation: the only nondeterminism the property depends on (map iteration order during insertion, lookup order) is put under the seeded choice source via the instrumented range statements; reference precedence oracle; choice-trace replay and minimisation"),
+ "C10": ("exploration", "6/C10",
+         "Seeded simulation of the real ociauth transport over the simulated network with a fake registry and a fake token server, under the fake clock and the deterministic scheduler (1-4 caller tasks through one shared transport; the transport holds its per-registry lock across token requests, which yield inside the network). Seeded conversations over a small scope lattice with idle gaps of 0-4 s, sub-second gaps, jumps of minutes and token-request latency; token servers that grant all / a subset / refuse wide requests, with or without the OAuth2 POST endpoint, lifetimes absent, 1-3 s or long; all credential configurations. A monitor on every request leaving the transport checks: the bearer token was issued to this transport for that host (or configured), had not expired when sent, covers the required scope when reused / the challenge scope when freshly acquired, is reused without any extra round trip when a cached token with >= 30 s left covers the scope, and token requests ask for challenge U required U desired, textually the challenge's own string when the union adds nothing.",
+         "deterministic simulation: fake clock (testing/synctest), seeded scheduler, simulated network with fake registry/token-server peers, traffic monitor with a naive set model of scopes; choice-trace replay and minimisation"),
+ "C11": ("exploration", "6/C11",
+         "Seeded simulation of the real ociauth transport against two fake registry hosts with distinct canary credentials, their token realms and a foreign host, on the simulated network under the deterministic scheduler (1-3 caller tasks interleaved across hosts) and fake clock. Seeded challenge shapes (Basic, Bearer, both, unknown schemes, malformed, missing realm, quoted realms with commas and escapes), token-server faults (500/403/404, malformed JSON, missing token, no POST endpoint, subset grants), failing configuration lookups, lost requests/responses on chosen exchanges, request bodies with and without GetBody. Every outgoing request is recorded by destination and searched for every host's canaries. Oracle: passwords only to a realm the host named or as Basic to the host after its Basic challenge; refresh tokens only to named realms; tokens only to their own registry; at most two attempts per call; 401 after a fresh token surfaces as 403; the caller's request is unmodified; every request body is closed on every path.",
+         "deterministic simulation with fault injection (token-server failures, config lookup failures, transport errors) over fake peers; complete traffic recording with canary-credential confinement monitor; choice-trace replay and minimisation"),
 }
 
 na = [
